@@ -6,6 +6,7 @@ import MpireModel.Drive.Misc
 import MpireModel.Drive.Apply
 import MpireModel.Drive.Shutdown
 import MpireModel.Drive.GracefulStop
+import MpireModel.Drive.ParamFlow
 /- One line in, one line out. -/
 namespace Mpire.Drive
 
@@ -42,6 +43,7 @@ def handle (line : String) : String :=
       | "tworker" => handleTWorker fs
       | "hstop"   => handleHStop fs
       | "gstop"   => handleGStop fs
+      | "pflow"   => handlePFlow fs
       | _ => none
     r.getD "bad-op"
 
